@@ -55,7 +55,8 @@ def inject(draw, fn):
     n = draw(st.integers(1, 3))
 
     def positions():
-        out = [(body, i) for i in range(len(body) + 1)]
+        first = 1 if body and body[0][0] == "doc" else 0  # a docstring stays the first statement
+        out = [(body, i) for i in range(first, len(body) + 1)]
         for s in body:
             if s[0] in ("for", "while"):
                 blk = s[3] if s[0] == "for" else s[2]
@@ -137,7 +138,12 @@ def run_config(fn, src, recipe, script, config, events, tevents=None, special=()
     mode, names, supplies = config[:3]
     decliners = config[3] if len(config) > 3 else []
     totals = config[4] if len(config) > 4 else []
+    bycat = config[5] if len(config) > 5 else []  # declared names selected as `name:@A` (by category)
     tevents = tevents if tevents is not None else []
+
+    def sel_of(n):
+        return f"f > {n}:@A" if n in bycat else f"f > {n}"
+
     f, glb = PR.load(src)
     target = f
     try:
@@ -163,19 +169,19 @@ def run_config(fn, src, recipe, script, config, events, tevents=None, special=()
                 for n in ordered:
                     st_ = inner if n in special else stack
                     if n in supplies:
-                        p = probing(f"f > {n}", env={"f": f}, overridable=True)
+                        p = probing(sel_of(n), env={"f": f}, overridable=True)
                         p.override(lambda d, v=supplies[n]: v)
                         st_.enter_context(p)
                         if n in decliners:
                             # a second overridable probe that only observes
-                            p2 = probing(f"f > {n}", env={"f": f}, overridable=True)
+                            p2 = probing(sel_of(n), env={"f": f}, overridable=True)
                             st_.enter_context(p2.values())
                     elif n in totals:
                         # a total-mode observer: its record is emitted when the call ends
                         sink = st_.enter_context(probing(f"f({n})", env={"f": f}, raw=True).values())
                         tevents.append(sink)
                     else:
-                        sink = st_.enter_context(probing(f"f > {n}", env={"f": f}).values())
+                        sink = st_.enter_context(probing(sel_of(n), env={"f": f}).values())
                         events.append(sink)
                 with inner:
                     out = PR.run_call(target, fn, recipe, glb, script)
@@ -204,8 +210,11 @@ def check_case(fn, declared, ugs, recipe, script, config, rec=None):
     # ---- reference
     # a supply is an override of that variable: it applies at the declaration and at every
     # other binding of the same name (C04 semantics)
+    # (a variable selected by category, `name:@A`, is only overridden where a binding carries the
+    # tag - for these names that is the declaration alone)
+    bycat = set(config[5]) if len(config) > 5 else set()
     H = PR.Hooks(supplies=dict(supplies),
-                 policy=lambda name, value, hooks: supplies[name] if name in supplies else value)
+                 policy=lambda name, value, hooks: supplies[name] if name in supplies and name not in bycat else value)
     twin_src = PG.render(fn, twin=True, declared=instr_decl, entry_declares=instr_ug)
     f2, g2 = PR.load(twin_src, extra={"H": H})
     try:
@@ -452,7 +461,8 @@ def replay(payload):
     recipe = {k: (v[0], v[1]) for k, v in payload["recipe"].items()}
     script = [tuple(s) for s in payload["script"]]
     cfg = payload["config"]
-    config = (cfg[0], cfg[1], dict(cfg[2]), list(cfg[3]) if len(cfg) > 3 else [], list(cfg[4]) if len(cfg) > 4 else [])
+    config = (cfg[0], cfg[1], dict(cfg[2]), list(cfg[3]) if len(cfg) > 3 else [], list(cfg[4]) if len(cfg) > 4 else [],
+              list(cfg[5]) if len(cfg) > 5 else [])
     try:
         check_case(fn, [tuple(d) for d in payload["declared"]], payload["ugs"], recipe, script, config)
     except PropertyViolation as v:
@@ -507,7 +517,14 @@ def strategy():
             supplies = {k: v for k, v in supplies.items() if k in names}
         decliners = [n for n in supplies if draw(st.integers(0, 2)) == 0]
         totals = [n for n in (names or []) if n not in supplies and n in [d[0] for d in declared] and draw(st.integers(0, 2)) == 0]
-        return fn, declared, ugs, recipe, script, (mode, names, supplies, decliners, totals)
+        # declared variables whose (only) annotation carries @A may be selected by category
+        n_ann = {}
+        for s_ in PG.walk_stmts(fn["body"]):
+            if s_[0] == "ann":
+                n_ann[s_[1]] = n_ann.get(s_[1], 0) + 1
+        bycat = [n for n, a in declared if "@A" in a and n_ann.get(n) == 1 and n in (names or []) and n not in totals
+                 and draw(st.booleans())]
+        return fn, declared, ugs, recipe, script, (mode, names, supplies, decliners, totals, bycat)
 
     return cases()
 
@@ -542,7 +559,8 @@ def shard(cfg):
         fn, declared, ugs, recipe, script, config = v.case
         res["violations"] = [violation_record(PROPERTY, v, {
             "fn": fn, "declared": [list(d) for d in declared], "ugs": ugs, "recipe": recipe, "script": script,
-            "config": [config[0], config[1], config[2], config[3], config[4]], "source": PG.render(fn)})]
+            "config": [config[0], config[1], config[2], config[3], config[4], config[5] if len(config) > 5 else []],
+            "source": PG.render(fn)})]
     if herr:
         res["harness_errors"] = [herr]
     return res
